@@ -297,6 +297,8 @@ class ErrorFamily:
                     n_.pop('id', None)
         sc = {'id': '', 'family': 'error', 'sched': rt['flavor'] + '-' + order + ('-idless' if idless else ''), 'seed': rng.randrange(1 << 30), 'runtime': rt, 'engine': {'store': opts.get('store', 'mem'), 'keep_processes': True}, 'models': [json.dumps(wf_engine)],
               'responder': {'mode': 'quiescent', 'order': order, 'rules': rules}, 'ops': [{'op': 'start', 'mid': 'm1', 'vars': {'pid': 'p1'}}, {'op': 'run', 'snap': opts.get('snap', 'live')}, {'op': 'snapshot', 'level': opts.get('snap', 'live')}]}
+        if idless:
+            sc['idless_catch'] = True
         if opts.get('store') == 'sqlite' and rng.random() < opts.get('restart', 0.0):
             sc['faults'] = {'restart_at': sorted(set(rng.randint(1, 5) for _ in range(rng.randint(1, 2))))}
             sc['sched'] += '+restart'
